@@ -216,7 +216,7 @@ class C02(Check):
             elif br["key"] != f"m{q}=0;":
                 return {"why": f"unexpected outcome log {br['key']!r}"}
         psi = simdrv.ref_run([tuple(p) for p in case["prep"]], n)
-        p1 = rq.prob1(psi, q)
+        p1 = min(1.0, max(0.0, rq.prob1(psi, q)))  # rounding can leave 1 + 1e-16
         if stats is not None:
             tags = ["born_tests"]
             ent = rq.schmidt_entangled(psi, q)
@@ -229,7 +229,7 @@ class C02(Check):
             return {"why": f"P(1)=0 but {ones}/{K} ones"}
         if p1 >= 1 - 1e-15 and ones != K:
             return {"why": f"P(1)=1 but only {ones}/{K} ones"}
-        bound = Z * math.sqrt(K * p1 * (1 - p1)) + 1
+        bound = Z * math.sqrt(max(0.0, K * p1 * (1 - p1))) + 1
         if abs(ones - K * p1) > bound:
             return {"why": f"Born rule: {ones}/{K} ones, expected {K * p1:.1f} +- {bound:.1f} (p1={p1:.6g})"}
         return None
@@ -274,7 +274,7 @@ class C02(Check):
                 if counts[b] != 0:
                     return {"why": f"joint outcome {b:0{n}b} has probability 0 but occurred {int(counts[b])} times"}
                 continue
-            bound = Z * math.sqrt(K * p * (1 - p)) + 1
+            bound = Z * math.sqrt(max(0.0, K * p * (1 - p))) + 1
             if abs(counts[b] - K * p) > bound:
                 return {"why": f"joint distribution: outcome {b:0{n}b} seen {int(counts[b])}/{K}, expected {K * p:.1f} +- {bound:.1f}"}
         return None
@@ -337,7 +337,7 @@ class C02(Check):
                 if counts[b] != 0:
                     return {"why": f"measured outcome {b:0{n}b} after reset(s) has probability 0 but occurred {int(counts[b])} times"}
                 continue
-            bound = Z * math.sqrt(K * p * (1 - p)) + 1
+            bound = Z * math.sqrt(max(0.0, K * p * (1 - p))) + 1
             if abs(counts[b] - K * p) > bound:
                 return {"why": f"measurements after reset(s): outcome {b:0{n}b} seen {int(counts[b])}/{K}, expected {K * p:.1f} +- {bound:.1f} "
                                f"(a measurement after a reset is not an independent Born draw)"}
